@@ -250,13 +250,22 @@ pub fn build(dc: &DefectCase, defects: &[Defect]) -> Case {
         parts[4] = "aws4_reques".into();
     }
     if has(WrongScopeDate) {
-        parts[1] = "20150829".into();
+        // the day before, or (when request and server sit on different sides of midnight) the server's own date
+        parts[1] = if dc.variant & 0x24 == 0x24 { plan.cfg.now.date8() } else { "20150829".into() };
     }
     if has(Arity4) {
         parts.remove(4);
     }
     if has(Arity6) {
-        parts.push("extra".into());
+        // a surplus component behind the scope, or between the access key and an otherwise correct scope
+        if dc.variant & 0x02 != 0 {
+            parts.insert(1, "extra".into());
+            if dc.variant & 0x01 != 0 {
+                parts.insert(1, "more".into());
+            }
+        } else {
+            parts.push("extra".into());
+        }
     }
     let credential = parts.join("/");
     let g = |i: usize| parts.get(i).cloned().unwrap_or_default();
@@ -391,10 +400,10 @@ pub fn build(dc: &DefectCase, defects: &[Defect]) -> Case {
         prov.answer = Answer::SigErr(Kind::ExpiredToken, "token expired".into());
     }
     if has(ProviderForeign) {
-        prov.answer = Answer::Foreign("database down".into());
+        prov.answer = Answer::Foreign(format!("database down ({})", dc.variant % 8));
     }
     if has(ProviderNotReadyErr) {
-        prov.ready_err = Some(Answer::Foreign("pool exhausted".into()));
+        prov.ready_err = Some(Answer::Foreign(format!("pool exhausted ({})", (dc.variant / 8) % 8)));
     }
     Case { req, cfg, prov }
 }
